@@ -12,6 +12,9 @@ package main
 //   node <id> <entity> <consensusIdx> <roles> <expiration> <freezeEnd> <eligibleAfter> <hasPi> <faults> <runtimes>
 //   rt <idx> <isCompute> <groupSize> <backupSize> <teeHw> <deployments> <csWorker> <csBackup>
 //   elect                      (app mode) run BeginBlock + EndBlock of the scheduler application
+//   change <min|n> <max|n> <dist|n>   (app mode) a governance change-parameters proposal for the scheduler module,
+//                              through Application.ExecuteMessage (validate, then apply); the parameters in state afterwards
+//                              are the world's parameters
 //   hvalidators | hcommittee <rt> <validator entities> | hdiff <cur> <pending> | hdedup <limit> | hsort | hpower <stake> <dist>
 //
 // Entities, nodes, consensus keys and runtimes are small indices in the case text; the model is given the
@@ -92,6 +95,7 @@ type rtSpec struct {
 
 type world struct {
 	p       params
+	reach   bool // parameters are genesis-valid and were changed only through the real changeParameters
 	epoch   uint64
 	entropy []byte
 	thr     map[uint64]*big.Int
@@ -102,7 +106,7 @@ type world struct {
 }
 
 func newWorld() *world {
-	return &world{p: params{minV: 1, maxV: 100, maxPer: 1, canElect: true, fv261: true}, epoch: 1,
+	return &world{p: params{minV: 1, maxV: 100, maxPer: 1, canElect: true, fv261: true}, reach: true, epoch: 1,
 		entropy: []byte("verif entropy verif entropy verif entropy"), thr: map[uint64]*big.Int{}}
 }
 
@@ -177,6 +181,8 @@ func (w *world) apply(f []string) bool {
 	case "params":
 		w.p = params{minV: pi(f[1]), maxV: pi(f[2]), maxPer: pi(f[3]), bypass: pb(f[4]), dist: uint8(pu(f[5])),
 			useVRF: pb(f[6]), canElect: pb(f[7]), weakAlpha: pb(f[8]), fv261: pb(f[9])}
+		// a `params` op writes the parameters into state directly: reachable iff InitChain would accept them
+		w.reach = w.p.minV >= 1 && w.p.maxV >= 1 && w.p.maxPer >= 1
 	case "epoch":
 		w.epoch = pu(f[1])
 	case "entropy":
@@ -394,6 +400,7 @@ func (r *rtSpec) build() *registry.Runtime {
 func (w *world) modelLines() []string {
 	p := w.p
 	l := []string{
+		"reach " + b01(w.reach),
 		fmt.Sprintf("params %d %d %d %s %d %s %s %s %s", p.minV, p.maxV, p.maxPer, b01(p.bypass), p.dist, b01(p.useVRF), b01(p.canElect), b01(p.weakAlpha), b01(p.fv261)),
 		fmt.Sprintf("epoch %d", w.epoch),
 	}
